@@ -292,6 +292,47 @@ func c09Run(c *fw.Case, env *fw.Env) *fw.Obs {
 			}
 		}
 	}
+	// the tables an earlier shallow fetch left out can be fetched on their own: `wrgl fetch tables REMOTE SUM...`
+	if strings.HasSuffix(class, "/after-shallow-fetch") && out.err == nil && len(o.Viols) == 0 {
+		var missing [][]byte
+		seenT := map[string]bool{}
+		for i, cs := range w.h.sums {
+			if _, ok := out.afterRecv["com/"+string(cs)]; !ok {
+				continue
+			}
+			t := string(w.h.tables[i])
+			if _, ok := out.afterRecv["tbl/"+t]; !ok && !seenT[t] {
+				seenT[t] = true
+				missing = append(missing, w.h.tables[i])
+			}
+		}
+		if len(missing) > 0 {
+			targs := []string{"fetch", "tables", "origin"}
+			for _, t := range missing {
+				targs = append(targs, fmt.Sprintf("%x", t))
+			}
+			tout, terr, tpn := mon.Wrgl(w.localDir, nil, append(targs, "--no-progress")...)
+			o.Ev("fetch_tables_commands", 1)
+			if tpn != "" {
+				o.Violate("panic/fetch-tables", "%v: %s", targs, tpn)
+				return o
+			}
+			if terr != nil {
+				o.Violate("fetch-tables-failed/"+class, "%v: %v %s", targs, terr, tailStr(tout, 300))
+				return o
+			}
+			if lh, err := w.localHandle(); err == nil {
+				for _, t := range missing {
+					if _, issues := mon.CheckTable(lh.DB, t, mon.CheckOpts{}); len(issues) > 0 {
+						o.Violate("fetch-tables-incomplete/"+issues[0].Clause+"/"+class, "`wrgl fetch tables` reported success for table %x but: %s", t, issues[0].Detail)
+						break
+					}
+					o.Ev("tables_fetched_on_their_own", 1)
+				}
+				lh.Close()
+			}
+		}
+	}
 	if out.err == nil && len(out.serverIssues) > 0 {
 		o.Status = "inconclusive"
 		o.Note = "reference server self-check: " + strings.Join(out.serverIssues, "; ")
